@@ -3,7 +3,7 @@ from vlib import sesscheck
 
 ID = 'C11'
 LEVEL = 'exploration'
-RULE = 'Same program space as C09 with identity checks weighted up: for every object the program holds, Entity[pk], get(pk), get(unique=value), select(), select_by_sql() and an in-session pickle round trip must return the very same Python object, and get(unique=v) must return the current holder according to the reference store. Non-trivial = an identity check executed after a key change, delete or failed creation in the same session; distinct by program hash.'
+RULE = 'Same program space as C09 with identity checks weighted up: for every object the program holds, Entity[pk], get(pk), get(unique=value), select(), select_by_sql() and an in-session pickle round trip must return the very same Python object, and get(unique=v) must return the current holder according to the reference store. Non-trivial = an identity check executed after a key change, delete or failed creation in the same session; distinct by program hash. A share of the programs (one third; one half for C11/C13/C15) comes from the hub family: every relationship starts at one entity, with cascading/unlinking relationships declared around a refusing one, populated, and then aimed operations (pending updates of children, pending removals on the hub collections, new children with explicit keys) precede the delete of the hub, so that deletes refused after part of their cascade are common.'
 ASSUMPTIONS = ['live SQLite (in-memory) with foreign keys enforced immediately',
                'reference store vlib/refstore.py written from the documented relationship/cascade/key semantics (DESIGN.md section 7a)',
                'table and column names are taken from the mapping metadata (names only)']
